@@ -1,5 +1,6 @@
 import Mochi.Model.Broker
 import Mochi.Lemmas.Gather
+import Mochi.Lemmas.BrokerDelivery
 /-!
 # C03 — Every published message reaches exactly the entitled subscribers, once each
 
@@ -121,5 +122,35 @@ example :
     -- the full filter does remove it
     (unsubscribe t [36, 115, 104, 97, 114, 101, 47, 103, 47, 103] [120]).2 = true ∧
     (unsubscribe t [36, 115, 104, 97, 114, 101, 47, 103, 47, 103] [120]).1.nodes = [] := by decide
+
+/-! ## Exactly the entitled connections are written a publish (state level)
+
+`EntitledVia s pk subs n`, `IsCopy`, `pubConn`, `ConnDistinct`: `Mochi/Lemmas/BrokerDelivery.lean`. -/
+
+/-- **Step 1.**  For a state `s` with the tables well-formed (`WF`, kept by every history) and one connection per
+    client object (`ConnDistinct`), an application message `pk` (PUBLISH, QoS 0, not marked "ignore" by the publish
+    hook) and no shared subscription matching its topic:
+
+    * a PUBLISH is written to connection `n` **iff** `n` is the connection of a client object registered under its
+      id that is open, not inline, whose peer is not gone, that has an entry in the subscriber map
+      `(subscribers s.topics pk.topic).subs`, may read the topic, and whose MERGED subscription does not exclude it
+      by No Local (`EntitledVia`; the merge ORs No Local over all matching subscriptions of the client: F03);
+    * connection `n` is written **at most one** PUBLISH;
+    * every output is an inline delivery or a copy of the message (payload, QoS 0, origin; the topic bytes may be
+      replaced by a topic alias). -/
+theorem publishToSubscribers_writes_exact (s : Server) (hw : WF s) (hcd : ConnDistinct s) (pk : Msg)
+    (hig : pk.ignore = false) (ht : pk.type = 3) (hq : pk.qos = 0)
+    (hsh : (subscribers s.topics pk.topic).shared = []) (n : Nat) :
+    ((∃ ver m me, Out.wrote n (.publish ver m me) ∈ (publishToSubscribers s pk).2) ↔
+      EntitledVia s pk (subscribers s.topics pk.topic).subs n) ∧
+    ((publishToSubscribers s pk).2.filterMap pubConn).count n ≤ 1 ∧
+    ∀ x ∈ (publishToSubscribers s pk).2, (∃ id, x = Out.inline id pk.topic pk.payload) ∨ IsCopy pk x := by
+  obtain ⟨h1, h2⟩ := publishToSubscribers_pubConns s pk (fun id i h => (hw.clients_valid id i h).1) hig ht hq hsh
+  refine ⟨?_, ?_, h2⟩
+  · rw [← mem_pubConns, h1]
+    exact mem_recipients s hw pk _ n
+  · rw [h1]
+    exact List.nodup_iff_count.mp
+      (recipients_nodup s hw hcd pk _ (C03_one_entry_per_client s.topics pk.topic)) n
 
 end Mochi.Broker
